@@ -7,3 +7,4 @@ pub use crate::geom3::align3::{verif_to_matrix as to_matrix, verif_to_wpr as to_
 pub use crate::geom3::mesh::verif_edges as edges;
 pub use crate::geom3::mesh::verif_box_geom as box_geom;
 pub use crate::geom2::verif_circle_fit_eval as circle_fit_eval;
+pub use crate::geom2::verif_intersection_line_circle as intersection_line_circle;
